@@ -10,8 +10,8 @@
    hypotheses seek_hyps hold (intact run from the landing point reaching the
    target, full rate; Seek_lemmas.v).  Exact landing for every target of small
    chained files, time seeks and end-of-file behaviour are established per run. *)
-From VV Require Import Blocking VFile VFile_lemmas VFileDemo Sync_lemmas Seek_lemmas.
-From Coq Require Import ZArith List.
+From VV Require Import Blocking VFile VFile_lemmas Term_lemmas VFileDemo Sync_lemmas Seek_lemmas.
+From Coq Require Import ZArith List Lia.
 Import ListNotations.
 Local Open Scope Z_scope.
 
@@ -59,6 +59,12 @@ Theorem C08_page_seek_lands_at_or_before_target :
     base_of s1 (v_link s1) <= v_pcm s1 <= pos.
 Proof. intros s pos s1 H1 H2 H3. destruct (page_seek_facts s pos s1 H1 H2 H3) as (_ & _ & _ & H). exact H. Qed.
 Print Assumptions C08_page_seek_lands_at_or_before_target.
+
+(* any page table, any handle state: a sample seek that reports success does not land before the target *)
+Theorem C08_sample_seek_never_short :
+  forall s pos, v_hs s = 0 -> fst (pcm_seek s pos) = 0 -> pos <= v_pcm (snd (pcm_seek s pos)).
+Proof. intros s pos Hh H. pose proof (pcm_seek_not_short s pos ltac:(lia) H) as B. rewrite Hh in B. change (2 ^ 0) with 1 in B. lia. Qed.
+Print Assumptions C08_sample_seek_never_short.
 
 (* the sample-accurate seek lands exactly on the target (hypotheses: one executable test) *)
 Theorem C08_sample_seek_lands_exactly_on_target :
